@@ -3,6 +3,7 @@
    Only statements (closed by `exact`), Print Assumptions, and examples.
    Model: Model/Tok.v (Tokenizer.parse, character-exact), Model/TokPos.v (positions, hand-overs, reach). *)
 From Coq Require Import ZArith NArith List Bool String.
+From JMCV Require Model.TokJson Proofs.TokJson.
 From JMCV Require Import Model.Tok Model.TokPos Model.TokDerived Model.TokCite Model.TokArgs Model.TokEnd
   Proofs.Tok Proofs.TokPos Proofs.TokProps Proofs.TokDerived Proofs.TokCite Proofs.TokArgs Proofs.TokEnd Proofs.TokRound4.
 Import ListNotations.
@@ -343,3 +344,30 @@ d';"%string) 1 1 with
   | _ => False
   end.
 Proof. vm_compute. repeat split. Qed.
+
+(* ---------------------------------------------------------------- strengthening round 5: JSON syntax errors
+   JMCDecodeJSONError maps json's (lineno, colno) - the position of the offset where json.loads stopped, counted inside the
+   bracket token's text - back into the file.  For EVERY token position, every text (one line or many) and every offset in
+   it, the cited (line, col) is the file position of that offset. *)
+Theorem C14_json_error_position : forall pre doc post tl tc off,
+  (tl, tc) = pos_after (1, 1) pre -> (off <= List.length doc)%nat ->
+  Model.TokJson.json_cite tl tc (Model.TokJson.json_err_pos doc off) = pos_of (pre ++ doc ++ post) (List.length pre + off).
+Proof. exact Proofs.TokJson.json_cite_file_position. Qed.
+Print Assumptions C14_json_error_position.
+
+(* The variant of the fifth round of bug seeding (column rule decided by "the token's text contains a newline" instead of
+   "the error is on the token's first line"): on the FIRST line of a multi-line text it is right iff the token starts in
+   column 1; everywhere else (later lines, one-line texts) it coincides with the real rule - which is why plants need a JSON
+   error on the line of an opening brace that is not in column 1. *)
+Theorem C14_json_shape_rule_first_line : forall tl tc d, Proofs.TokPos.has_nl d = false ->
+  (Model.TokJson.json_cite_shape true tl tc (pos_after (1, 1) d) = pos_after (tl, tc) d <-> tc = 1).
+Proof. exact Proofs.TokJson.json_cite_shape_first_line. Qed.
+Print Assumptions C14_json_shape_rule_first_line.
+Theorem C14_json_shape_rule_same_on_later_lines : forall tl tc d, Proofs.TokPos.has_nl d = true ->
+  Model.TokJson.json_cite_shape true tl tc (pos_after (1, 1) d) = Model.TokJson.json_cite tl tc (pos_after (1, 1) d).
+Proof. exact Proofs.TokJson.json_cite_shape_same_elsewhere. Qed.
+Print Assumptions C14_json_shape_rule_same_on_later_lines.
+Theorem C14_json_shape_rule_same_on_one_line : forall tl tc e, fst e = 1 ->
+  Model.TokJson.json_cite_shape false tl tc e = Model.TokJson.json_cite tl tc e.
+Proof. exact Proofs.TokJson.json_cite_shape_single_line. Qed.
+Print Assumptions C14_json_shape_rule_same_on_one_line.
